@@ -38,6 +38,7 @@ Proof.
     replace ((cc bc =? 0) || (cr bc =? 0)) with false by lia.
     destruct (m_render t SFixed f) as [tc|e]; cbn [bind]; [|exact RT].
     destruct RT as [T1 [T2 T3]]. rewrite EP in T1. inversion T1; subst w h.
+    replace ((cc tc =? 0) || (cr tc =? 0)) with false by lia.
     assert (S1 : exists t1, (if (L <? 0) || (R <? 0) then pad_trim_lr tc (Z.min 0 L) (Z.min 0 R) else Ok tc) = Ok t1
                             /\ cc t1 + Z.max L 0 <= c /\ cr t1 = cr tc /\ rect t1 = true /\ inside t1).
     { destruct ((L <? 0) || (R <? 0)) eqn:EN.
@@ -65,6 +66,7 @@ Proof.
     replace ((cc bc =? 0) || (cr bc =? 0)) with false by lia.
     destruct (m_render t SFixed f) as [tc|e]; cbn [bind]; [|exact RT].
     destruct RT as [T1 [T2 T3]]. rewrite EP in T1. inversion T1; subst w h.
+    replace ((cc tc =? 0) || (cr tc =? 0)) with false by lia.
     assert (S1 : exists t1, (if (L <? 0) || (R <? 0) then pad_trim_lr tc (Z.min 0 L) (Z.min 0 R) else Ok tc) = Ok t1
                             /\ cc t1 + Z.max L 0 <= c /\ cr t1 = cr tc /\ rect t1 = true /\ inside t1).
     { destruct ((L <? 0) || (R <? 0)) eqn:EN.
